@@ -56,7 +56,7 @@ impl Universe {
 }
 
 /// `stretch`: maximum chain length per basic command (1 = no stretch).
-pub fn build_universe(cmds: &[Value], stretch: u64, rng: &mut Rng, merge_tag: u8) -> Result<Universe, String> {
+pub fn build_universe(cmds: &[Value], stretch: u64, rng: &mut Rng, merge_tag: u8, prio_max: bool) -> Result<Universe, String> {
     let mut u = Universe {
         chains: BTreeMap::new(),
         order: vec![],
@@ -81,7 +81,11 @@ pub fn build_universe(cmds: &[Value], stretch: u64, rng: &mut Rng, merge_tag: u8
             _ => {
                 let rank = c.g("id").as_array().unwrap()[1].as_u64().unwrap() as u8;
                 let k = if kind == "fin" || stretch <= 1 { 1 } else { rng.range(1, stretch) };
-                let prio = if kind == "fin" { Priority::Finalize } else { Priority::Basic(c.u("prio") as u32) };
+                // the spec only orders priorities 0 < 1; option prio_max concretises 1 as u32::MAX
+                // (the boundary next to Finalize) and 0 as u32::MAX - 1
+                let pv = c.u("prio") as u32;
+                let pv = if prio_max { if pv == 0 { u32::MAX - 1 } else { u32::MAX } } else { pv };
+                let prio = if kind == "fin" { Priority::Finalize } else { Priority::Basic(pv) };
                 let mut prev = u.tip(par[0]).address();
                 let mut v = vec![];
                 for j in 0..k {
@@ -249,7 +253,7 @@ fn run_case(case: &Value, args: &Args, rng: &mut Rng) -> Result<(Value, u64), Fa
     let merge_tag = args.opt_u64("merge_tag", 2) as u8;
     audit::set_merge_tag(merge_tag);
     let stretch = args.opt_u64("stretch", 1);
-    let u = build_universe(case.a("cmds"), stretch, rng, merge_tag).map_err(|e| fail("tool:universe", e))?;
+    let u = build_universe(case.a("cmds"), stretch, rng, merge_tag, args.opt_bool("prio_max")).map_err(|e| fail("tool:universe", e))?;
     let exp_err = case.b("err");
     let exp_heads: Vec<[u8; 32]> = case.a("heads").iter().map(|h| *u.tip(h.as_u64().unwrap()).id.as_array()).collect();
     // the `seq` fact: application order of the commands the audit rules accepted
@@ -441,6 +445,27 @@ fn run_case(case: &Value, args: &Args, rng: &mut Rng) -> Result<(Value, u64), Fa
         crate::faulty::reset_fetch_count();
         r0.commit(t0, &mut s0).map_err(|e| fail("tool:fault-dry-run", err_class(&e)))?;
         let n = crate::faulty::fetch_count();
+        // the backend's head-set write fails: the commit must fail and nothing may change
+        // (neither the persisted heads nor what get_heads() reports)
+        #[cfg(not(feature = "filestore"))]
+        {
+            let mut sw = ASink::new();
+            let (mut r, t) = build(&mut sw)?;
+            let before_w = r.view().map_err(|e| fail("tool:view", e))?;
+            crate::faulty::fail_next_commit(true);
+            let res = vrt::catch_any(|| r.commit(t, &mut sw));
+            crate::faulty::fail_next_commit(false);
+            let after_w = r.view().map_err(|e| fail("C08:unreadable-after-fault", format!("state unreadable after a failed head-set write: {e}")))?;
+            match res {
+                Err(p) => return Err(fail("C08:panic-on-write-fault", format!("commit panicked when the head-set write failed: {p}"))),
+                Ok(Ok(_)) => return Err(fail("C08:commit-ok-despite-write-fault", "commit returned Ok although the backend's head-set write failed".into())),
+                Ok(Err(_)) => {
+                    if after_w != before_w {
+                        return Err(fail("C08:partial-commit-on-write-fault", format!("commit failed (head-set write error) but the reported committed state changed: before {} after {}", view_json(&u, &before_w), view_json(&u, &after_w))));
+                    }
+                }
+            }
+        }
         let ks: Vec<i64> = if n <= 16 { (0..n).collect() } else { (0..16).map(|_| rng.below(n as u64) as i64).collect() };
         for k in ks {
             let mut sk = ASink::new();
